@@ -103,7 +103,9 @@ func (s *Stats) Case(labels []string, nontrivial bool, canonical []byte, sample 
 // listed known finding.
 func (s *Stats) Exclude(finding string) {
 	s.mu.Lock()
-	s.Excluded[finding]++
+	if !s.frozen {
+		s.Excluded[finding]++
+	}
 	s.mu.Unlock()
 }
 
